@@ -672,6 +672,12 @@ class GoExec:
                 st.pc += lit_facts(x)
 
     def elem_facts(self, st, v, etid):
+        if isinstance(v, StrV):
+            st.assume(z3.And(v.len >= 0, v.len <= MAXLEN, v.off >= 0, v.off <= MAXLEN))
+            return
+        if isinstance(v, SliceV):
+            st.assume(z3.And(v.len >= 0, v.len <= v.cap, v.cap <= MAXLEN, v.off >= 0))
+            return
         ii = self.tt.intinfo(etid)
         if ii and ii[0] and self.mode != 'bv' and isinstance(v, z3.ExprRef):
             w, s = ii
@@ -689,6 +695,10 @@ class GoExec:
             return self.str_ident(k.arr, k.off, k.len)
         if isinstance(k, (PtrV, IfaceV)):
             return k.ref
+        if isinstance(k, StructV):
+            from .golib import chain
+            self.use_ident = True
+            return chain([self.mapkey(st, k.fields[f['n']]) for f in self.tt.fields(k.tid)])
         return k
 
     _litids = {}
